@@ -118,9 +118,12 @@ impl<'a> G<'a> {
         let code_id = self.some_id();
         // labels are recorded exactly as supplied: also whitespace-padded and whitespace-only ones (not empty => accepted)
         let label = if self.rng.chance(1, 12) { "" } else { *self.rng.pick(&["L", "label two", " padded ", " ", "L", "\tx\n"]) };
-        let admin = match self.rng.below(3) {
+        // the admin is recorded exactly as supplied: instantiate does not validate it (only UpdateAdmin does), so
+        // strings the Api would reject (a plain name, a foreign-prefix address, the empty string) are recorded too
+        let admin = match self.rng.below(4) {
             0 => None,
             1 => Some(self.some_user()),
+            3 if self.rng.chance(1, 2) => Some(self.rng.pick(&["dao-core", "", "juno1h34lmpywh4upnjdg90cjf4j70aee6z8qqfspugamjp42e4q28kqsksmtyp"]).to_string()),
             _ => self.contracts().first().cloned().or(Some(self.users[0].clone())),
         };
         let funds = match self.rng.below(10) {
